@@ -105,6 +105,31 @@ def names_read(node: ast.AST) -> Set[str]:
     return {n.id for n in ast.walk(node) if isinstance(n, ast.Name) and isinstance(n.ctx, ast.Load)}
 
 
+def _composite_slots(expr: ast.AST, dep: Dict[str, Set[str]], local_composites=None) -> Dict[str, str]:
+    """When the stored value is a constructor-like call fed by two or more different parameters, each of them determines its own part of the
+    composite: {param: slot} with slot = keyword name or positional index of the argument the parameter (alone) feeds."""
+    if isinstance(expr, ast.Name) and local_composites and local_composites.get(expr.id) is not None:
+        return local_composites[expr.id]
+    if not isinstance(expr, ast.Call):
+        return {}
+    per_arg = []
+    for i, a in enumerate(expr.args):
+        per_arg.append((str(i), a))
+    for k in expr.keywords:
+        if k.arg:
+            per_arg.append((k.arg, k.value))
+    owners = {}
+    for slot, a in per_arg:
+        ps = set()
+        for nm in names_read(a):
+            ps |= dep.get(nm, set())
+        if len(ps) == 1:
+            owners.setdefault(next(iter(ps)), []).append(slot)
+    if len(owners) < 2:
+        return {}
+    return {p: slots[0] for p, slots in owners.items() if len(slots) == 1}
+
+
 def init_param_to_field(repo: Repo, ci: ClassInfo) -> Dict[str, Set[str]]:
     """For the class's __init__ (own or inherited): parameter -> set of self fields whose
     stored value depends on it (directly, or through single-assignment locals)."""
@@ -181,6 +206,18 @@ def init_param_to_field(repo: Repo, ci: ClassInfo) -> Dict[str, Set[str]]:
                         dep.setdefault(tn.id, set()).update(used)
     out: Dict[str, Set[str]] = {p: set() for p in params}
     selfname = fn.args.args[0].arg
+    # locals bound once to a composite built from several parameters keep their slot structure
+    local_composites: Dict[str, Dict[str, str]] = {}
+    counts: Dict[str, int] = {}
+    for n in walk_local(fn, include_nested_funcs=False):
+        if isinstance(n, ast.Assign) and len(n.targets) == 1 and isinstance(n.targets[0], ast.Name):
+            counts[n.targets[0].id] = counts.get(n.targets[0].id, 0) + 1
+    for n in walk_local(fn, include_nested_funcs=False):
+        if isinstance(n, ast.Assign) and len(n.targets) == 1 and isinstance(n.targets[0], ast.Name) and counts.get(n.targets[0].id) == 1 \
+                and n.targets[0].id not in params and isinstance(n.value, ast.Call):
+            sl = _composite_slots(n.value, dep)
+            if sl:
+                local_composites[n.targets[0].id] = sl
     for n in walk_local(fn, include_nested_funcs=False):
         val = None
         tgts = []
@@ -208,6 +245,9 @@ def init_param_to_field(repo: Repo, ci: ClassInfo) -> Dict[str, Set[str]]:
                     for p in used:
                         if p in out:
                             out[p].add(tn.attr)
+                    for p, slot in _composite_slots(val, dep, local_composites).items():
+                        if p in out:
+                            out[p].add(f'{tn.attr}.{slot}')
     # super().__init__(a=b, ...) forwards: map through the base class
     for c in ast.walk(fn):
         if isinstance(c, ast.Call) and isinstance(c.func, ast.Attribute) and c.func.attr == '__init__' \
@@ -238,4 +278,7 @@ def init_param_to_field(repo: Repo, ci: ClassInfo) -> Dict[str, Set[str]]:
                 for p in used:
                     if p in out:
                         out[p] |= bmap.get(bp, set())
+                for p, slot in _composite_slots(expr, dep, local_composites).items():
+                    if p in out:
+                        out[p] |= {f'{f}.{slot}' for f in bmap.get(bp, set()) if '.' not in f}
     return out
